@@ -34,6 +34,7 @@ func c18Main(e *Env) (*res.Result, error) {
 	var pairs []pair
 	collect(e, "C18", n, func(t *rapid.T) PkgSpec {
 		c := specgen.NewCtx(t, disabled)
+		c.LowerCompNames = true
 		fam := rapid.SampledFrom([]string{"json", "params", "responses", "composition"}).Draw(t, "family")
 		var d *specgen.Doc
 		switch fam {
